@@ -2,7 +2,10 @@
    [class_ok T comp c] symbolically runs constructor / __enter__ / __exit__ of class c of table T,
    answering every question the code asks about its inputs BOTH ways ([explore]), and checks on
    every path the restore obligation:
-     - a failing constructor / __enter__ has written nothing;
+     - a failing constructor / __enter__ has written nothing -- whatever makes it fail: an explicit
+       `raise`, a missing attribute, a wrong call, or a `warnings.warn(..)` that the warning filter in
+       force turns into an exception (SWarn: the question "does this warning raise" is answered both
+       ways like every other question; Python runs no __exit__ when the with-header raises);
      - __enter__ and __exit__ only write own slots of c or of its documented composites, all of
        which are leaf classes (nobody inherits from them);
      - __exit__ does not raise, does not swallow exceptions, and its newest write to every slot
@@ -58,17 +61,24 @@ Definition chkA (c : string) (fs : list fact) (r : res blockA) : bool :=
   end.
 Definition class_ok (c : string) : bool := explore QFUEL (fun fs => symA T fs c) (chkA c) [].
 
+(* the pseudo-class of the warning filter is not a class of the table, nor an ancestor of one *)
+Definition warn_free : bool := forallb (fun e => negb (mem_str WARN (chain T (c_name e)))) T.
+
 (* programs all of whose with-blocks use checked classes *)
 Fixpoint prog_ok (p : prog) : bool :=
   match p with
   | PSeq a b => prog_ok a && prog_ok b
   | PWith c _ body => class_ok c && prog_ok body
+  | PEsc _ body => warn_free && prog_ok body
+  | PTry body => prog_ok body
   | _ => true
   end.
 Fixpoint footprint (p : prog) : list string :=
   match p with
   | PSeq a b => footprint a ++ footprint b
   | PWith c _ body => allowed c ++ footprint body
+  | PEsc _ body => WARN :: footprint body
+  | PTry body => footprint body
   | _ => []
   end.
 
@@ -147,6 +157,7 @@ Fixpoint prog_classes (p : prog) : list string :=
   match p with
   | PSeq a b => prog_classes a ++ prog_classes b
   | PWith c _ body => c :: prog_classes body
+  | PEsc _ body | PTry body => prog_classes body
   | _ => []
   end.
 
